@@ -57,6 +57,16 @@ func (c *Ctx) blsKeys(n int) []blsKey {
 		agg1, _ := crypto.AggregateBLSPrivateKeys([]crypto.PrivateKey{skFromInt(a), skFromInt(am1)})
 		keys = append(keys, blsKey{big.NewInt(1), agg1, agg1.PublicKey(), "aggregated-to-one"})
 	}
+	// a key produced by RemoveBLSPublicKeys (possibly held in non-affine coordinates)
+	{
+		k1, k2 := c.randScalar(), c.randScalar()
+		both, _ := crypto.AggregateBLSPublicKeys([]crypto.PublicKey{skFromInt(k1).PublicKey(), skFromInt(k2).PublicKey()})
+		rm, err := crypto.RemoveBLSPublicKeys(both, []crypto.PublicKey{skFromInt(k2).PublicKey()})
+		if err != nil {
+			panic(err)
+		}
+		keys = append(keys, blsKey{k1, skFromInt(k1), rm, "removal-result"})
+	}
 	for len(keys) < n {
 		keys = append(keys, mk(c.randScalar(), "random"))
 	}
@@ -75,7 +85,20 @@ func (c *Ctx) identityKeys() []crypto.PublicKey {
 		panic(err)
 	}
 	aggsk, _ := crypto.AggregateBLSPrivateKeys([]crypto.PrivateKey{skFromInt(a), skFromInt(na)})
-	return []crypto.PublicKey{crypto.IdentityBLSPublicKey(), agg, dec, aggsk.PublicKey()}
+	// identity obtained by removing every aggregated key, and by removing a key from itself
+	b := c.randScalar()
+	pa, pb := skFromInt(a).PublicKey(), skFromInt(b).PublicKey()
+	ab, _ := crypto.AggregateBLSPublicKeys([]crypto.PublicKey{pa, pb})
+	rmAll, err := crypto.RemoveBLSPublicKeys(ab, []crypto.PublicKey{pb, pa})
+	if err != nil {
+		panic(err)
+	}
+	rmSelf, _ := crypto.RemoveBLSPublicKeys(pa, []crypto.PublicKey{pa})
+	decc, err := crypto.DecodePublicKeyCompressed(crypto.BLSBLS12381, inf)
+	if err != nil {
+		panic(err)
+	}
+	return []crypto.PublicKey{crypto.IdentityBLSPublicKey(), agg, dec, aggsk.PublicKey(), rmAll, rmSelf, decc}
 }
 
 func verifyAns(pk crypto.PublicKey, sig, msg []byte, h hash.Hasher) string {
@@ -234,4 +257,9 @@ func genC01(c *Ctx) {
 		return errClass(e1) + " " + errClass(e2)
 	})
 	c.Case("hasher-guard", "expect NilHasher NilHasher #nil", ans)
+}
+
+func pickIdentity(c *Ctx, i int) crypto.PublicKey {
+	ks := c.identityKeys()
+	return ks[i%len(ks)]
 }
